@@ -113,6 +113,77 @@ func cellTok(p value.Primary) string {
 	return hc.EncProfile(p) + "~" + txt
 }
 
+// sortClass: the rung of NewSortValue's ladder a value lands on (documented ladder, written here):
+// N null / UNKNOWN, I integer, F float, D datetime, B boolean, S text
+func sortClass(p value.Primary) byte {
+	switch {
+	case value.IsNull(p):
+		return 'N'
+	case !value.IsNull(value.ToIntegerStrictly(p)):
+		return 'I'
+	case !value.IsNull(value.ToFloat(p)):
+		return 'F'
+	case !value.IsNull(value.ToDatetime(p, nil, hc.UTC)):
+		return 'D'
+	case !value.IsNull(value.ToBoolean(p)):
+		return 'B'
+	}
+	if _, ok := p.(*value.String); ok {
+		return 'S'
+	}
+	return 'N'
+}
+
+// colOrder: what the ORDER BY comparison is on the values a column holds.
+//   total      SortValue.Less on the column's non-NULL values is a strict weak order ("neither before the other" is
+//              transitive): numbers and text only, datetimes only, or booleans only (then nothing is ordered).  A
+//              boolean next to anything, a datetime next to a number or a text are incomparable while either may be
+//              ordered with a third value: the sorted order then depends on the sort algorithm and on the order of
+//              the input, and a second sort of the sorted rows may give another order.
+//   tiesEquiv  total, and the rows the comparison leaves tied are exactly the rows that are EquivalentTo one another
+//              (not so for booleans: TRUE and FALSE tie but are not equivalent).
+type colOrder struct{ total, tiesEquiv bool }
+
+func colOrderOf(rows [][]value.Primary, col int) colOrder {
+	var n [256]int
+	for _, r := range rows {
+		n[sortClass(r[col])]++
+	}
+	num, dt, b := n['I']+n['F']+n['S'], n['D'], n['B']
+	switch {
+	case dt == 0 && b == 0, num == 0 && b == 0:
+		return colOrder{true, true}
+	case num == 0 && dt == 0:
+		return colOrder{true, false}
+	}
+	return colOrder{false, false}
+}
+
+// the comparison on k1, k2 of the rows the analytic queries read (the table `t`, or the rows of the derived table)
+var curOrd [2]colOrder
+
+func setCurOrd(rows [][]value.Primary) {
+	curOrd = [2]colOrder{colOrderOf(rows, cK1), colOrderOf(rows, cK2)}
+}
+
+func (c caseSpec) allTotal() bool {
+	for _, it := range c.items {
+		if it.col >= 0 && !curOrd[it.col-cK1].total {
+			return false
+		}
+	}
+	return true
+}
+
+func (c caseSpec) allTiesEquiv() bool {
+	for _, it := range c.items {
+		if it.col >= 0 && !curOrd[it.col-cK1].tiesEquiv {
+			return false
+		}
+	}
+	return true
+}
+
 // ---------- table generation ----------
 
 const (
@@ -134,6 +205,12 @@ const (
 	kMixedNum // equal numbers in integer / float / string notation
 	kBigInt   // 64-bit integers above 2^53, closer together than the float64 spacing
 	kNumText  // typed numbers next to non-numeric strings (compared by the number's text), a consistent total order
+	// value classes the sort comparator cannot separate although the values are NOT EquivalentTo one another
+	// (SortValue.Less is UNKNOWN, no NULL involved): what RANK & co. call peers is then decided by EquivalentTo alone
+	kBool    // booleans, ternaries, boolean-looking strings: no two of them are ordered, TRUE and FALSE are no peers
+	kDateMix // datetimes and datetime-looking strings next to numbers, numeric strings and plain strings
+	kAnyMix  // every class in one column: integers, floats, numeric strings, datetimes, booleans, ternaries, text, NULL
+	kBoolNum // booleans next to the integers 0 / 1 and other numbers (TRUE is EquivalentTo 1 — and 1 to 1.0 — but not ordered with them)
 	nSortKinds
 )
 
@@ -179,9 +256,10 @@ func partVal(g *hc.Gen, kind int) value.Primary {
 // families of values that are the same PARTITION BY key (C04: integer, else float, else datetime, else
 // boolean, else upper-cased trimmed text); different families are different keys — also 1 vs 1.0
 var spellings = [][]value.Primary{
-	{value.NewInteger(1), value.NewString("1"), value.NewString("01"), value.NewString("+1"), value.NewString(" 1 "), value.NewString("001"), value.NewBoolean(true), value.NewString("true"), value.NewString(" TRUE ")},
+	{value.NewInteger(1), value.NewString("1"), value.NewString("01"), value.NewString("+1"), value.NewString(" 1 "), value.NewString("001"), value.NewBoolean(true), value.NewString("true"), value.NewString(" TRUE "), value.NewTernaryFromString("TRUE")},
 	{value.NewInteger(2), value.NewString("2"), value.NewString("02"), value.NewString("+2"), value.NewString("002")},
-	{value.NewInteger(0), value.NewString("0"), value.NewString("00"), value.NewString("-0"), value.NewString("+0"), value.NewString("false"), value.NewBoolean(false)},
+	{value.NewInteger(0), value.NewString("0"), value.NewString("00"), value.NewString("-0"), value.NewString("+0"), value.NewString("false"), value.NewBoolean(false), value.NewTernaryFromString("FALSE")},
+	{value.NewNull(), value.NewTernaryFromString("UNKNOWN")},
 	{value.NewInteger(-3), value.NewString("-3"), value.NewString("-03"), value.NewString(" -3")},
 	{value.NewFloat(1.0), value.NewString("1.0"), value.NewString("1e0"), value.NewString("1.00"), value.NewString(" 01.0 ")},
 	{value.NewFloat(0), value.NewString("0.0"), value.NewString("-0.0"), value.NewString("0e0")},
@@ -192,11 +270,69 @@ var spellings = [][]value.Primary{
 	{value.NewDatetime(time.Date(2012, 2, 3, 9, 18, 15, 0, time.UTC)), value.NewString("2012-02-03 09:18:15"), value.NewString("2012/2/3 9:18:15"), value.NewString("2012-02-03T09:18:15Z")},
 }
 
+func boolVal(g *hc.Gen) value.Primary {
+	switch g.Intn(4) {
+	case 0:
+		return value.NewBoolean(g.Intn(2) == 0)
+	case 1:
+		return value.NewTernaryFromString(g.Pick("TRUE", "FALSE", "TRUE", "FALSE", "UNKNOWN"))
+	case 2:
+		return value.NewString(g.Pick("true", "false", " TRUE ", "False", "t", "f"))
+	}
+	return value.NewBoolean(g.Intn(3) == 0)
+}
+
+func dateVal(g *hc.Gen) value.Primary {
+	t := time.Date(2012, 2, 3+g.Intn(2), 9*g.Intn(2), 0, 0, 0, time.UTC)
+	switch g.Intn(3) {
+	case 0:
+		return value.NewDatetime(t)
+	case 1:
+		return value.NewString(t.Format("2006-01-02 15:04:05"))
+	}
+	return value.NewString(t.Format("2006/01/02 15:04:05"))
+}
+
 func sortVal(g *hc.Gen, kind int) value.Primary {
 	if g.Intn(7) == 0 {
 		return value.NewNull()
 	}
 	switch kind {
+	case kBool:
+		return boolVal(g)
+	case kDateMix:
+		switch g.Intn(5) {
+		case 0:
+			return value.NewInteger(int64(g.Intn(3)))
+		case 1:
+			return value.NewString(g.Pick("1", "2.5", " 2 ", "a", "B", "2012"))
+		case 2:
+			return value.NewFloat([]float64{1, 2.5}[g.Intn(2)])
+		}
+		return dateVal(g)
+	case kAnyMix:
+		switch g.Intn(6) {
+		case 0:
+			return boolVal(g)
+		case 1:
+			return dateVal(g)
+		case 2:
+			grp := mixedNum[g.Intn(len(mixedNum))]
+			return grp[g.Intn(len(grp))]
+		case 3:
+			return value.NewString(g.Pick("a", "A", " a ", "b", "", "x:y"))
+		case 4:
+			return value.NewInteger(int64(g.Intn(3)))
+		}
+		return boolVal(g)
+	case kBoolNum:
+		switch g.Intn(4) {
+		case 0:
+			return value.NewInteger(int64(g.Intn(3)))
+		case 1:
+			return []value.Primary{value.NewFloat(1.0), value.NewFloat(0), value.NewString("1"), value.NewString("1.0"), value.NewString("0"), value.NewFloat(2.5)}[g.Intn(6)]
+		}
+		return boolVal(g)
 	case kBigInt:
 		base := []int64{9007199254740992, -9007199254740992, 4611686018427387904, 9223372036854775800, 9007199254740990}[g.Intn(5)]
 		v := base + int64(g.Intn(5))
@@ -693,12 +829,34 @@ func run(seed int64, n int, dir string, _ []string) {
 				{value.NewInteger(0), value.NewNull(), value.NewInteger(2), value.NewNull(), value.NewString("e")},
 			}
 		}
+		if t == 2 {
+			// corpus: ORDER BY keys whose values the comparison cannot separate although they are not equivalent
+			// (k1: TRUE / FALSE; k2: a datetime next to a number, a text, a boolean) — the peers of RANK, DENSE_RANK,
+			// CUME_DIST, PERCENT_RANK are the EquivalentTo rows, not the rows the comparison leaves tied
+			nrows, akind = 8, aLetters
+			d := value.NewDatetime(time.Date(2012, 2, 3, 0, 0, 0, 0, time.UTC))
+			rows = [][]value.Primary{
+				{value.NewInteger(0), value.NewNull(), value.NewBoolean(true), d, value.NewString("a")},
+				{value.NewInteger(0), value.NewNull(), value.NewString("true"), value.NewInteger(1), value.NewString("b")},
+				{value.NewInteger(0), value.NewNull(), value.NewBoolean(false), value.NewString("2012-02-03"), value.NewString("c")},
+				{value.NewInteger(0), value.NewNull(), value.NewBoolean(false), value.NewString("a"), value.NewString("d")},
+				{value.NewInteger(1), value.NewNull(), value.NewTernaryFromString("TRUE"), d, value.NewString("e")},
+				{value.NewInteger(1), value.NewNull(), value.NewBoolean(false), value.NewBoolean(true), value.NewString("f")},
+				{value.NewInteger(1), value.NewNull(), value.NewString("false"), d, value.NewNull()},
+				{value.NewInteger(1), value.NewNull(), value.NewBoolean(false), value.NewFloat(1.0), value.NewString("h")},
+			}
+			curSortKinds = [2]int{kBool, kAnyMix}
+		}
 		if t < 2 {
 			curSortKinds = [2]int{kMixedNum, kInt} // the witness tables
 		}
 		if err := pr.DeclareTable("t", colNames, rows); err != nil {
 			lawCap(o, "analytic:declare_table_error", err.Error())
 			continue
+		}
+		setCurOrd(rows)
+		for j := 0; j < 2; j++ {
+			o.Count(fmt.Sprintf("sortcol:total=%v ties_are_peers=%v", curOrd[j].total, curOrd[j].tiesEquiv))
 		}
 		cpu := []int{1, 2, 3, 4, 8}[g.Intn(5)]
 		pr.SetCPU(cpu)
@@ -730,6 +888,12 @@ func run(seed int64, n int, dir string, _ []string) {
 				c = caseSpec{witness: "rank_int_float_ties", fn: "rank", items: []orderItem{{col: cK1}}, w: window{form: "order"}}
 			} else if t == 1 {
 				break // the mixed integer / float sort column is outside the generator's domain
+			} else if t == 2 && ci < 8 {
+				fn := []string{"cume_dist", "percent_rank", "rank", "dense_rank"}[ci%4]
+				c = caseSpec{fn: fn, items: []orderItem{{col: cK1 + ci/4}}, w: window{form: "order"}}
+				if ci%2 == 1 {
+					c.pcols = []int{cP1}
+				}
 			} else {
 				c = genCase(g, nrows, akind)
 			}
@@ -967,7 +1131,13 @@ func runCase(g *hc.Gen, o *hc.Out, pr *hc.Proc, rows [][]value.Primary, c caseSp
 		}
 		o.Count(fmt.Sprintf("partition:size<=%d", sizeBand(len(p))))
 	}
-	o.NonTrivial(fmt.Sprintf("%s|%s|ign=%v|p%d|o%d|u=%v|parts<=%d|rows<=%d|d=%v", c.fn, c.w.class(), c.ign, len(c.pcols), len(c.items), c.uniqueOrder(), sizeBand(len(parts)), sizeBand(nrows), c.distinct))
+	o.NonTrivial(fmt.Sprintf("%s|%s|ign=%v|p%d|o%d|u=%v|parts<=%d|rows<=%d|d=%v|weak=%v|tiespeers=%v", c.fn, c.w.class(), c.ign, len(c.pcols), len(c.items), c.uniqueOrder(), sizeBand(len(parts)), sizeBand(nrows), c.distinct, c.allTotal(), c.allTiesEquiv()))
+	if c.hasOrder() {
+		o.Count(fmt.Sprintf("order_key:weak_order=%v ties_are_peers=%v unique=%v", c.allTotal(), c.allTiesEquiv(), c.uniqueOrder()))
+		if !c.allTiesEquiv() {
+			o.Count("fn_over_key_with_incomparable_values:" + c.fn)
+		}
+	}
 
 	// ----- the operation line for the model of the current code -----
 	mfn, mflag := c.fn, c.ign
@@ -1154,7 +1324,7 @@ func runCase(g *hc.Gen, o *hc.Out, pr *hc.Proc, rows [][]value.Primary, c caseSp
 				pickFull = true // the model must order these rows itself
 			}
 		}
-		if !src.derived && (c.uniqueOrder() || !c.hasOrder()) && nrows <= 150 && pickFull {
+		if !src.derived && (c.uniqueOrder() || !c.hasOrder()) && nrows <= 150 && pickFull && c.allTotal() {
 			a1, a2 := "-", "-"
 			if c.a1 != nil {
 				a1 = strconv.Itoa(*c.a1)
@@ -1309,6 +1479,20 @@ func runCase(g *hc.Gen, o *hc.Out, pr *hc.Proc, rows [][]value.Primary, c caseSp
 	var null value.Primary = value.NewNull()
 	sqlBudget := 10
 	reported := 0
+	// The textbook forms of RANK & co. ("preceding rows that are no peers", "rows up to the last peer") presuppose
+	// that peers are adjacent in the sorted partition.  An ORDER BY key holding values the comparison cannot separate
+	// although they are not equivalent (TRUE / FALSE; a datetime next to a number) leaves such rows interleaved: there
+	// the functions are defined by the code's maximal runs of EquivalentTo rows (the model's `cumGroups`,
+	// Csvq.C17.peers_are_equivalence_classes), checked by the model comparison above and by rankFamilyLaw.
+	peerLaw := !c.hasOrder() || c.uniqueOrder() || c.allTiesEquiv()
+	if tieSafe[c.fn] {
+		if peerLaw {
+			o.Count("law:rank_family_textbook")
+		} else {
+			o.Count("law:rank_family_textbook_not_applicable(peers_not_adjacent)")
+		}
+		rankFamilyLaw(o, pr, c, parts, got, replay)
+	}
 	for _, p := range parts {
 		n := len(p)
 		for k, id := range p {
@@ -1323,6 +1507,9 @@ func runCase(g *hc.Gen, o *hc.Out, pr *hc.Proc, rows [][]value.Primary, c caseSp
 					reported++
 				}
 			case "rank", "dense_rank", "cume_dist", "percent_rank":
+				if !peerLaw {
+					continue
+				}
 				strictlyBefore, upto := 0, 0
 				classes := map[string]bool{}
 				for j, jd := range p {
@@ -1480,6 +1667,105 @@ func runCase(g *hc.Gen, o *hc.Out, pr *hc.Proc, rows [][]value.Primary, c caseSp
 	}
 }
 
+// rankFamilyLaw: RANK, DENSE_RANK, CUME_DIST and PERCENT_RANK over ONE analytic clause are four readings of one
+// division of every partition into groups (Csvq.C17.rank_and_cume_dist_agree_on_groups, for every input whatever
+// the ORDER BY comparison is): a group that follows c rows and has l rows gives RANK c+1, DENSE_RANK its number,
+// CUME_DIST (c+l)/n, PERCENT_RANK c/(n-1) (1 when n = 1).  Checked on the implementation's own outputs of four
+// separate queries; the groups are read off DENSE_RANK, the partitions come from the reference normalisation; no
+// order and no notion of peer is taken from anywhere else.
+func rankFamilyLaw(o *hc.Out, pr *hc.Proc, c caseSpec, parts [][]int, got []*outRow, replay func(map[string]interface{}) map[string]interface{}) {
+	nrows := len(got)
+	if nrows == 0 {
+		return
+	}
+	fns := []string{"rank", "dense_rank", "cume_dist", "percent_rank"}
+	col := map[string][]value.Primary{}
+	sqls := map[string]string{}
+	for _, fn := range fns {
+		vals := make([]value.Primary, nrows)
+		if fn == c.fn {
+			for id := range got {
+				vals[id] = got[id].r
+			}
+			col[fn] = vals
+			continue
+		}
+		e := c
+		e.fn = fn
+		sql := src.with + "SELECT id, " + e.callSQL() + " AS r FROM " + src.from
+		sqls[fn] = sql
+		v, err := safeQuery(pr, sql)
+		if err != nil || v.RecordLen() != nrows {
+			lawCap(o, "analytic:rank_family_groups_disagree", replay(map[string]interface{}{"other_sql": sql, "error": fmt.Sprint(err)}))
+			return
+		}
+		for i := 0; i < nrows; i++ {
+			id := intCell(hc.ViewCell(v, i, 0))
+			if id < 0 || id >= nrows || vals[id] != nil {
+				lawCap(o, "analytic:rank_family_groups_disagree", replay(map[string]interface{}{"other_sql": sql, "duplicate_or_unknown_id": id}))
+				return
+			}
+			vals[id] = hc.ViewCell(v, i, 1)
+		}
+		col[fn] = vals
+	}
+	o.Count("law:rank_family_one_grouping")
+	intOf := func(p value.Primary) (int64, bool) {
+		iv, ok := p.(*value.Integer)
+		if !ok {
+			return 0, false
+		}
+		return iv.Raw(), true
+	}
+	isFrac := func(p value.Primary, num, den int) bool {
+		fv, ok := p.(*value.Float)
+		return ok && math.Float64bits(fv.Raw()) == math.Float64bits(float64(num)/float64(den))
+	}
+	for _, p := range parts {
+		n := len(p)
+		sizes := map[int64]int{}
+		for _, id := range p {
+			d, ok := intOf(col["dense_rank"][id])
+			if !ok {
+				d = -1
+			}
+			sizes[d]++
+		}
+		for _, id := range p {
+			d, _ := intOf(col["dense_rank"][id])
+			before, groupsBefore := 0, 0
+			for dd, sz := range sizes {
+				if dd < d {
+					before += sz
+					groupsBefore++
+				}
+			}
+			l := sizes[d]
+			rk, rok := intOf(col["rank"][id])
+			wantPR, okPR := fmt.Sprintf("%d/%d", before, n-1), false
+			if n > 1 {
+				okPR = isFrac(col["percent_rank"][id], before, n-1)
+			} else {
+				wantPR, okPR = "1/1", isFrac(col["percent_rank"][id], 1, 1)
+			}
+			if d != int64(groupsBefore+1) || !rok || rk != int64(before+1) || !isFrac(col["cume_dist"][id], before+l, n) || !okPR {
+				m := map[string]interface{}{"id": id, "partition_size": n,
+					"dense_rank": hc.EncVal(col["dense_rank"][id]), "rows_in_groups_before": before, "rows_in_its_group": l,
+					"rank": hc.EncVal(col["rank"][id]), "rank_want": before + 1,
+					"cume_dist": hc.EncVal(col["cume_dist"][id]), "cume_dist_text": col["cume_dist"][id].String(), "cume_dist_want": fmt.Sprintf("%d/%d", before+l, n),
+					"percent_rank": hc.EncVal(col["percent_rank"][id]), "percent_rank_text": col["percent_rank"][id].String(), "percent_rank_want": wantPR,
+					"other_sqls": sqls,
+					"note": "the four functions over one analytic clause must come from one division of the partition into groups (groups read off DENSE_RANK)"}
+				if n <= 40 {
+					m["partition"] = p
+				}
+				lawCap(o, "analytic:rank_family_groups_disagree", replay(m))
+				return
+			}
+		}
+	}
+}
+
 // at most lawCapN records per law name and run: a frequent (known) finding must not push a different
 // failure out of the part of laws.txt the orchestrator reads
 const lawCapN = 6
@@ -1509,6 +1795,9 @@ func orderRobust(c caseSpec) bool {
 	if (c.fn == "ntile" || c.fn == "nth_value") && c.a1 != nil && *c.a1 < 1 {
 		return false
 	}
+	if !c.allTotal() {
+		return false // an ORDER BY that is no weak order: a re-sort of the re-ordered view may give another order
+	}
 	if c.uniqueOrder() {
 		return true
 	}
@@ -1521,7 +1810,8 @@ func orderRobust(c caseSpec) bool {
 	if len(c.items) == 0 {
 		return insensitive && whole
 	}
-	return tieSafe[c.fn] || (insensitive && whole)
+	// RANK & co. do not depend on the order among ties — where the ties of the comparison are the peers
+	return (tieSafe[c.fn] && c.allTiesEquiv()) || (insensitive && whole)
 }
 
 // mutateOne changes exactly one element of an analytic call: the direction or the NULLS position of an ORDER BY
@@ -1884,6 +2174,9 @@ func derivedCases(g *hc.Gen, o *hc.Out, pr *hc.Proc, base [][]value.Primary, aki
 	o.Count("derived:" + s.kind)
 	o.Count("derived:inner=" + in.fn + " as " + use)
 	src = s
+	baseOrd := curOrd
+	setCurOrd(rows)
+	defer func() { curOrd = baseOrd }()
 	for k := 0; k < 2; k++ {
 		var c caseSpec
 		ok := false
@@ -1912,7 +2205,13 @@ func literalCaseCheck(g *hc.Gen, o *hc.Out, pr *hc.Proc, rows [][]value.Primary,
 	if g.Intn(2) == 0 {
 		over += "PARTITION BY " + g.Pick("p1", "p2") + " "
 	}
-	over += "ORDER BY " + g.Pick("k1", "k2", "k1 DESC", "k2 DESC NULLS FIRST") + ", id)"
+	// several functions in one select list re-sort the re-ordered view: only over a key the comparison orders weakly
+	key := g.Pick("k1", "k2", "k1 DESC", "k2 DESC NULLS FIRST")
+	if !curOrd[int(key[1]-'1')].total {
+		key = "id DESC"
+		o.Count("literal_case:key_column_not_weakly_ordered")
+	}
+	over += "ORDER BY " + key + ", id)"
 	lit := [][2]string{{"'a'", "'A'"}, {"'dflt'", "'DFLT'"}, {"'x y'", "'X Y'"}, {"'Sep'", "'sEP'"}}[g.Intn(4)]
 	form := []string{"LAG(x, 1, %s)", "LEAD(x, 2, %s)", "LISTAGG(x, %s)", "FIRST_VALUE(%s)", "LAST_VALUE(%s)", "NTH_VALUE(%s, 1)",
 		"cellsagg2(x, %s)", "LAG(%s, 1, x)"}[g.Intn(8)]
@@ -2049,6 +2348,11 @@ func groupedListAgg(g *hc.Gen, o *hc.Out, pr *hc.Proc, rows [][]value.Primary, c
 		items = []orderItem{{col: cK2, desc: g.Intn(2) == 0, np: g.Pick("", "f", "l")}, {col: cK1}, {col: -1, desc: true}}
 	default:
 		items = []orderItem{{col: -1, desc: true}}
+	}
+	if !(caseSpec{items: items}).allTotal() {
+		// the model orders the group itself (reference sort): only over keys the comparison orders weakly
+		items = []orderItem{{col: -1, desc: g.Intn(2) == 0}}
+		o.Count("grouped_listagg:key_column_not_weakly_ordered")
 	}
 	d := ""
 	if distinct {
